@@ -33,6 +33,7 @@ VALUE_KINDS = {
     "obj_subschema": int,
 }
 FLOATS = [0.0, -0.0, 1.0, 0.5, -1.5, 2.0, 1e308, 5e-324, 3.0]
+FLOATS_SMALL = [0.0, 1.0, 0.5, 1e308]
 SUBSCHEMAS = [{}, {"type": "string"}, {"minimum": "x"}, {"type": 5}, {"items": {"type": []}}, {"maxLength": -1}, {"enum": []},
               {"required": "a"}, {"properties": {"a": 1}}, {"x-unknown": None}, {"minimum": 0, "maximum": 1}]
 SUBSCHEMAS_BOOL = [True, False]
@@ -59,7 +60,7 @@ def value_of(d, kind, v):
     """materialise the keyword value from the symbolic parameter"""
     subs = (SUBSCHEMAS_SMALL if SMALL[0] else SUBSCHEMAS) + (SUBSCHEMAS_BOOL if d >= 6 else [])
     if kind == "float":
-        return pick(FLOATS, v)
+        return pick(FLOATS_SMALL if SMALL[0] else FLOATS, v)
     if kind == "obj_arr_str":
         return {"a": v, "": ["x"]}
     if kind == "arr_arr_str":
@@ -78,7 +79,7 @@ def value_of(d, kind, v):
 def value_ok(d, kind, v):
     subs = len(SUBSCHEMAS_SMALL if SMALL[0] else SUBSCHEMAS) + (2 if d >= 6 else 0)
     if kind == "float":
-        return 0 <= v < len(FLOATS)
+        return 0 <= v < len(FLOATS_SMALL if SMALL[0] else FLOATS)
     if kind == "subschema":
         return 0 <= v < subs
     if kind in ("arr_subschema", "obj_subschema"):
